@@ -2371,6 +2371,21 @@ class AssignIndex(Elemwise):
         return self.value.divisions
 
 
+def _is_row_operand(expr, op):
+    """Whether ``op`` provides rows of the partition-wise ``expr`` (so that a
+    selection of rows or partitions of ``expr`` selects from ``op`` as well)
+    rather than being broadcast to all of them. A single-partition frame
+    operand looks like a broadcast one, e.g. the series of
+    ``from_pandas(df, npartitions=1).a.to_frame()``."""
+    if not expr._broadcast_dep(op):
+        return True
+    return (
+        op.ndim > 0
+        and "frame" in expr._parameters
+        and op is expr.operands[expr._parameters.index("frame")]
+    )
+
+
 class Head(Expr):
     """Take the first `n` rows of the first partition"""
 
@@ -2401,7 +2416,7 @@ class Head(Expr):
             operands = [
                 (
                     Head(op, self.n, self.operand("npartitions"))
-                    if isinstance(op, Expr) and not self.frame._broadcast_dep(op)
+                    if isinstance(op, Expr) and _is_row_operand(self.frame, op)
                     else op
                 )
                 for op in self.frame.operands
@@ -2516,7 +2531,7 @@ class Tail(Expr):
             operands = [
                 (
                     Tail(op, self.n)
-                    if isinstance(op, Expr) and not self.frame._broadcast_dep(op)
+                    if isinstance(op, Expr) and _is_row_operand(self.frame, op)
                     else op
                 )
                 for op in self.frame.operands
@@ -2877,7 +2892,7 @@ class Partitions(Expr):
             operands = [
                 (
                     Partitions(op, self.partitions)
-                    if (isinstance(op, Expr) and not self.frame._broadcast_dep(op))
+                    if (isinstance(op, Expr) and _is_row_operand(self.frame, op))
                     else op
                 )
                 for op in self.frame.operands
